@@ -2,7 +2,7 @@
    ProofsOffender / ProofsEcho, the refutation witnesses (each one replayed on the Go code by
    corpus/C06/cases.txt) and satisfiability examples. *)
 From Gv Require Import lib.Bytes lib.Json lib.Gql C06.Num C06.Model C06.Spec
-     C06.ProofsBase C06.ProofsValidator C06.ProofsCoerce C06.ProofsPipeline C06.ProofsOffender C06.ProofsEcho.
+     C06.ProofsBase C06.ProofsValidator C06.ProofsCoerce C06.ProofsPipeline C06.ProofsInject C06.ProofsOffender C06.ProofsEcho.
 From Coq Require Import List NArith Bool Lia.
 Import ListNotations.
 Open Scope N_scope.
@@ -155,16 +155,37 @@ Proof.
 Qed.
 
 (* ------------------------------------------------------------------ accept_iff_coercible: what is true *)
-(* the code as it is: Int / ID weakened to "JSON number", the other causes excluded by explicit conditions *)
+(* the code as it is: Int / ID weakened to "JSON number" ([weak]), every other cause excluded by an explicit
+   boolean condition on the schema / operation / variables *)
 Theorem accept_iff_coercible_partial_proof : forall S reparse vds ms,
     fields_nodup S = true ->                  (* schema validity: field names of an input object differ *)
+    oneof_no_defaults S = true ->             (* schema validity: OneOf input objects have no defaults *)
+    field_defaults_ok weak_strict S = true -> (* schema validity: defaults are valid, well-shaped values of their field's type *)
     json_nodup (JObj ms) = true ->            (* no duplicate keys in the variables JSON *)
     vars_nodup vds = true ->                  (* variable names differ *)
     no_upload_ref S vds = true ->             (* excludes upload-exempt-from-non-null and remap-name-collision-upload *)
     defaults_nullable_only S = true ->        (* excludes field-null- / list-element-null-uses-field-default *)
     forallb (var_default_ok go_quirks S weak_strict) vds = true ->
                                               (* variable defaults, as extracted, are valid for their type *)
-    inject_inert go_quirks S reparse vds ms ->  (* default injection changes nothing: excludes the three inject-defaults-* causes *)
+    forallb (var_shaped S ms) vds = true ->   (* after list coercion: arrays at list types, objects at input object types, no null
+                                                 among the elements of lists of lists / of input objects, no string there:
+                                                 excludes the three inject-defaults-* causes *)
+    normalise go_quirks S reparse vds ms <> NFuel ->   (* the model's recursion budget for nested defaults suffices *)
+    (accepts go_quirks S reparse vds (JObj ms) = true <-> coercible_all weak S vds (JObj ms) = true).
+Proof.
+  intros. apply (pipeline_shaped_iff_coercible S reparse); auto.
+Qed.
+
+(* the same with "default injection changes nothing" in place of the shape condition (covers unshaped values,
+   e.g. a null among the elements of a list of input objects, when there is nothing to inject) *)
+Theorem accept_iff_coercible_partial_inert_proof : forall S reparse vds ms,
+    fields_nodup S = true ->
+    json_nodup (JObj ms) = true ->
+    vars_nodup vds = true ->
+    no_upload_ref S vds = true ->
+    defaults_nullable_only S = true ->
+    forallb (var_default_ok go_quirks S weak_strict) vds = true ->
+    inject_inert go_quirks S reparse vds ms ->
     (accepts go_quirks S reparse vds (JObj ms) = true <-> coercible_all weak S vds (JObj ms) = true).
 Proof.
   intros. apply (pipeline_iff_coercible go_quirks S reparse vds ms); auto.
@@ -205,6 +226,38 @@ Definition ex_schema : schema :=
 Definition ex_vars : list vardef := [mk_var b_x (TList (TNamed b_In)) None; mk_var b_y (TNamed n_Int) (Some (VInt [55]))].
 Definition ex_ms : list (bytes * json) :=
   [(b_x, JObj [(b_k, num [50]); (b_d, num [53]); ([108], JObj [(b_k, num t_3); (b_d, num [48])])])].
+(* ... and one where defaults ARE injected, two levels deep:
+   input B { k: Int!  d: Int = 1 }   input In { k: Int!  l: [[In]]  d: Int = 1  b: B = {k: 5} }
+   query($x: [In], $y: Int = 7)   {"x":{"k":2,"l":{"k":3,"b":{"k":4}}}} *)
+Definition b_BB : name := [66;66].
+Definition b_b : name := [98].
+Definition b_l : name := [108].
+Definition ex2_schema : schema :=
+  mk_schema [mk_input b_BB [mk_field b_k (TNonNull (TNamed n_Int)) None; mk_field b_d (TNamed n_Int) (Some (VInt t_1))];
+             mk_input b_In [mk_field b_k (TNonNull (TNamed n_Int)) None;
+                            mk_field b_l (TList (TList (TNamed b_In))) None;
+                            mk_field b_d (TNamed n_Int) (Some (VInt t_1));
+                            mk_field b_b (TNamed b_BB) (Some (VObj [(b_k, VInt [53])]))]].
+Definition ex2_ms : list (bytes * json) :=
+  [(b_x, JObj [(b_k, num [50]); (b_l, JObj [(b_k, num t_3); (b_b, JObj [(b_k, num [52])])])])].
+Example accept_iff_coercible_partial_shaped_hyps :
+  fields_nodup ex2_schema = true /\ oneof_no_defaults ex2_schema = true /\ field_defaults_ok weak_strict ex2_schema = true
+  /\ json_nodup (JObj ex2_ms) = true /\ vars_nodup ex_vars = true
+  /\ no_upload_ref ex2_schema ex_vars = true /\ defaults_nullable_only ex2_schema = true
+  /\ forallb (var_default_ok go_quirks ex2_schema weak_strict) ex_vars = true
+  /\ forallb (var_shaped ex2_schema ex2_ms) ex_vars = true
+  /\ pipeline go_quirks ex2_schema no_reparse ex_vars (JObj ex2_ms)
+     = PDone (JObj [(b_y, num [55]);
+                    (b_x, JArr [JObj [(b_k, num [50]);
+                                      (b_l, JArr [JArr [JObj [(b_k, num t_3);
+                                                              (b_b, JObj [(b_k, num [52]); (b_d, num t_1)]);
+                                                              (b_d, num t_1)]]]);
+                                      (b_d, num t_1);
+                                      (b_b, JObj [(b_k, num [53]); (b_d, num t_1)])]])]) None.
+Proof. vm_compute. repeat split; reflexivity. Qed.
+Example accept_iff_coercible_partial_shaped_fuel : normalise go_quirks ex2_schema no_reparse ex_vars ex2_ms <> NFuel.
+Proof. vm_compute. discriminate. Qed.
+
 Example accept_iff_coercible_partial_hyps :
   fields_nodup ex_schema = true /\ json_nodup (JObj ex_ms) = true /\ vars_nodup ex_vars = true
   /\ no_upload_ref ex_schema ex_vars = true /\ defaults_nullable_only ex_schema = true
